@@ -4,6 +4,7 @@ import ElfioVerif.Model.Load
 import ElfioVerif.Model.Validate
 import ElfioVerif.Model.Writer
 import ElfioVerif.Model.Inspect
+import ElfioVerif.Driver.LoadC18
 namespace ElfioVerif.Drv.Load
 open ElfioVerif ElfioVerif.Drv
 
@@ -412,7 +413,8 @@ def runCase (ops : List (List String)) : List String :=
       | some (.ok (d', out)) => go (objs.set cur d') fresh' flen' cur rest (out :: acc)
       | some (.error f) => (f.render :: acc).reverse
       | none =>
-        let (o', out) := step d.o t
+        -- ---- C18 table query ops (rel, symname, symvalue, arr32, arr64, versym, verneed, verdef, arrange, swap, alarm)
+        let (o', out) := match LoadC18.step d.o t with | some r => r | none => step d.o t
         if out.startsWith "FAULT" then (out :: acc).reverse
         else go (objs.set cur { d with o := o' }) fresh' flen' cur rest (out :: acc)
   go [d0] none none 0 ops []
